@@ -93,7 +93,7 @@ func umsg(key uint64, uid, seq, n int) []byte {
 }
 
 func genC09(r *vh.Runner) {
-	n := r.Pick(240, 4000)
+	n := r.Pick(240, 20000)
 	for i := 0; i < n; i++ {
 		r.Case(fmt.Sprintf("isolation/%d", i), map[string]any{"case": i}, func(c *vh.Case) {
 			c.Bubble(func() { isolationRun(r, c, i) })
